@@ -1,5 +1,6 @@
 """Pretty-print functions."""
 
+import re
 from copy import copy
 
 from kernel.type import Type
@@ -340,10 +341,10 @@ def get_ast_term(t):
             else:
                 return Set([helper(item, bd_vars) for item in items], t.get_type())
 
-        # Chars and Strings
-        elif string.is_char(t):
+        # Chars and Strings (only those the grammar has a literal for)
+        elif string.is_char(t) and re.fullmatch(r"[A-Za-z0-9_]", string.dest_char(t)):
             return Char(string.dest_char(t))
-        elif string.is_string(t):
+        elif string.is_string(t) and re.fullmatch(r'[^"\n]*', string.dest_string(t)):
             return String(string.dest_string(t))
 
         # Intervals
